@@ -184,7 +184,15 @@ pub fn load_corpus() -> Corpus {
     let j: serde_json::Value = serde_json::from_str(&txt).unwrap();
     let mut literals: Vec<String> = j["literals"].as_array().unwrap().iter().map(|v| v.as_str().unwrap().to_string()).collect();
     // committed regression corpus runs first
-    if let Ok(t) = std::fs::read_to_string("/verif/corpus/regress.jsonl") {
+    let root = std::env::var("VERIF_ROOT").unwrap_or_else(|_| "/verif".to_string());
+    let mut extra = std::fs::read_to_string(format!("{root}/corpus/regress.jsonl")).unwrap_or_default();
+    // texts added after a seeded change was missed; VERIF_NO_SEEDCORPUS=1 leaves them out (used to
+    // test whether a seeded change is detected without them)
+    if std::env::var("VERIF_NO_SEEDCORPUS").is_err() {
+        extra.push_str(&std::fs::read_to_string(format!("{root}/corpus/seed_inspired.jsonl")).unwrap_or_default());
+    }
+    if !extra.is_empty() {
+        let t = extra;
         let mut pre = vec![];
         for l in t.lines() {
             if let Ok(v) = serde_json::from_str::<serde_json::Value>(l) {
